@@ -1,9 +1,9 @@
 CONSTANTS Formats = {0, 2, 4, 6, 8, 10, 12, 14} SpaLens = {0, 1, 2, 3, 4, 5, 6} StartCi = {0, 254} PayCi = {0, 9, 254, 255} ForeignLens = {1, 2, 3, 6} Bursts = {2, 16, 240, 255} MaxPk = 4
-  Modes = {"unit", "pay"} ContFull = FALSE
+  Modes = {"unit", "pay", "mix"} ContFull = FALSE
   Listen <- ListenT
   Pays <- PaysT
 SPECIFICATION GSpec
 VIEW gview
 CONSTRAINT Dump
-PROPERTIES FlagOnlyAfterLoss FlagAfterLoss NothingForeign DeliveredIff DepPassed
+PROPERTIES FlagOnlyAfterLoss FlagAfterLoss NothingForeign DeliveredIff DepPassed MixNeutral
 CHECK_DEADLOCK FALSE
